@@ -19,7 +19,7 @@ func (Engine) Name() string { return "syncsim" }
 func (Engine) Scenarios(property string) []string {
 	switch property {
 	case "C01":
-		return []string{"model", "disk", "disk-remote", "model-outcomes", "disk-crash"}
+		return []string{"model", "disk", "disk-edits", "disk-remote", "model-outcomes", "disk-crash"}
 	case "C02":
 		return []string{"model", "disk", "disk-edits", "readonly"}
 	case "C03":
